@@ -370,10 +370,14 @@ fn reset(
     mut related_entities: ResMut<RelatedEntities>,
     clients: Query<Entity, With<ConnectedClient>>,
     mut buffered_events: ResMut<BufferedServerEvents>,
+    mut removal_buffer: ResMut<RemovalBuffer>,
+    mut despawn_buffer: ResMut<DespawnBuffer>,
 ) {
     *server_tick = Default::default();
     buffered_events.clear();
     related_entities.clear();
+    removal_buffer.clear();
+    despawn_buffer.clear();
     for entity in &clients {
         commands.entity(entity).despawn();
     }
